@@ -169,3 +169,34 @@ pub fn b64_decode(s: &str) -> Option<Vec<u8>> {
 pub fn is_b64_char(c: u8) -> bool {
     val(c).is_some()
 }
+
+
+// ---------------------------------------------------------------------------
+// /proc helpers for the non-return supervisors (engine.rs, props/c17.rs)
+
+/// kernel thread id of the calling thread
+pub fn my_tid() -> u32 {
+    thread_local! { static TID: u32 = std::fs::read_link("/proc/thread-self").ok().and_then(|p| p.file_name().and_then(|f| f.to_str()).and_then(|f| f.parse().ok())).unwrap_or(0); }
+    TID.with(|t| *t)
+}
+
+fn stat_fields(path: &str) -> Option<(u64, char)> {
+    let stat = std::fs::read_to_string(path).ok()?;
+    let after = &stat[stat.rfind(')')? + 1..];
+    let f: Vec<&str> = after.split_whitespace().collect();
+    let state = f.first()?.chars().next()?;
+    // utime + stime in clock ticks (100 per second on Linux)
+    Some(((f.get(11)?.parse::<u64>().ok()? + f.get(12)?.parse::<u64>().ok()?) * 10_000_000, state))
+}
+
+/// (nanoseconds on a CPU, scheduler state) of one thread of this process
+pub fn thread_cpu(tid: u32) -> Option<(u64, char)> {
+    let (ticks_ns, state) = stat_fields(&format!("/proc/self/task/{tid}/stat"))?;
+    let ns = std::fs::read_to_string(format!("/proc/self/task/{tid}/schedstat")).ok().and_then(|s| s.split_whitespace().next().and_then(|x| x.parse::<u64>().ok())).unwrap_or(ticks_ns);
+    Some((ns, state))
+}
+
+/// nanoseconds on a CPU of a whole process (all threads)
+pub fn process_cpu(pid: u32) -> Option<u64> {
+    stat_fields(&format!("/proc/{pid}/stat")).map(|x| x.0)
+}
